@@ -36,7 +36,8 @@ type StopCase struct {
 	Timeout    int      `json:"timeout"` // shutdown.timeout_seconds (0 = not configured)
 	Command    string   `json:"command"` // "", ok, fail, slow
 	Tree       []Member `json:"tree"`
-	Trigger    string   `json:"trigger"` // stop | shutdown | SIGTERM | SIGINT | SIGHUP
+	Trigger    string   `json:"trigger"`             // stop | shutdown | SIGTERM | SIGINT | SIGHUP
+	Repeat     int      `json:"repeat_ms,omitempty"` // OS-signal triggers: a second signal this many ms after the first
 	DelayMs    int      `json:"delay_ms"`
 }
 
@@ -334,6 +335,13 @@ func checkStop(c StopCase) pbt.Verdict {
 	default:
 		sig := map[string]syscall.Signal{"SIGTERM": syscall.SIGTERM, "SIGINT": syscall.SIGINT, "SIGHUP": syscall.SIGHUP}[c.Trigger]
 		_ = bin.Process.Signal(sig)
+		if c.Repeat > 0 {
+			// an impatient user or service manager repeats the signal while the shutdown is in progress
+			go func() {
+				time.Sleep(time.Duration(c.Repeat) * time.Millisecond)
+				_ = bin.Process.Signal(map[int]syscall.Signal{0: sig, 1: syscall.SIGTERM, 2: syscall.SIGINT}[c.Repeat%3])
+			}()
+		}
 		callDone <- nil
 	}
 	budget := time.Duration(c.Timeout+12) * time.Second
@@ -496,6 +504,9 @@ func genStop(t *rapid.T) StopCase {
 	}
 	if c.Timeout == 0 && pbt.Pct(t, 20) && c.Command == "" {
 		c.Timeout = pbt.Pick(t, []int{1, 2})
+	}
+	if strings.HasPrefix(c.Trigger, "SIG") && pbt.Pct(t, 50) {
+		c.Repeat = pbt.Pick(t, []int{30, 200, 400, 601})
 	}
 	return c
 }
